@@ -725,7 +725,7 @@ class CSSSerializer:
             for item in rule.seq:
                 type_, val = item.type, item.value
                 # PRE
-                if '}' == val and type_ != 'STRING' and stacks:
+                if '}' == val and type_ not in ('STRING', 'URI') and stacks:
                     # close last open item on stack
                     stackblock = stacks.pop().value()
                     if stackblock:
@@ -742,7 +742,7 @@ class CSSSerializer:
                     out.append(val, type_)
 
                 # POST
-                if '{' == val and type_ != 'STRING':
+                if '{' == val and type_ not in ('STRING', 'URI'):
                     # new stack level
                     stacks.append(Out(self))
 
